@@ -86,7 +86,9 @@ impl Wake for CountWaker {
 
 #[derive(Clone, Debug, PartialEq, Eq, Hash)]
 pub struct SCase {
-    pub cfg: [u8; 3],
+    /// capacity class, constructor flavour, payload size class, and a 4-byte "swarm" mask:
+    /// which call kinds this history may use (0 = all)
+    pub cfg: [u8; 7],
     pub ops: Vec<[u8; 3]>,
 }
 impl SCase {
@@ -101,12 +103,12 @@ impl SCase {
         let b: Vec<u8> = (0..s.len() / 2)
             .map(|i| u8::from_str_radix(&s[2 * i..2 * i + 2], 16).unwrap_or(0))
             .collect();
-        let mut cfg = [0u8; 3];
-        for i in 0..3 {
+        let mut cfg = [0u8; 7];
+        for i in 0..7 {
             cfg[i] = *b.get(i).unwrap_or(&0);
         }
         let ops = b
-            .get(3..)
+            .get(7..)
             .unwrap_or(&[])
             .chunks(3)
             .map(|c| [c[0], *c.get(1).unwrap_or(&0), *c.get(2).unwrap_or(&0)])
@@ -176,10 +178,20 @@ const ALPHA: [(A, u32); 27] = [
     (A::TrySendOptNone, 1),
 ];
 fn pick_a(b: u8) -> A {
-    let total: u32 = ALPHA.iter().map(|x| x.1).sum();
+    pick_a_masked(b, 0)
+}
+
+/// Swarm testing: a history may be restricted to a generated subset of the call kinds
+/// (bit i of `mask` enables ALPHA[i]; fewer than 3 enabled kinds, or 0, means all).
+fn pick_a_masked(b: u8, mask: u32) -> A {
+    let enabled = |i: usize| mask == 0 || mask.count_ones() < 3 || (mask >> i) & 1 == 1;
+    let total: u32 = ALPHA.iter().enumerate().filter(|(i, _)| enabled(*i)).map(|(_, x)| x.1).sum();
     let x = (b as u32 * total) >> 8;
     let mut acc = 0;
-    for (a, w) in ALPHA.iter() {
+    for (i, (a, w)) in ALPHA.iter().enumerate() {
+        if !enabled(i) {
+            continue;
+        }
         acc += w;
         if x < acc {
             return *a;
@@ -272,6 +284,7 @@ struct World<const N: usize> {
     viol: Vec<(String, String)>,
     live_handles: usize,
     in_queue_at_end: bool,
+    mask: u32,
 }
 
 fn err_s(e: SendError) -> m::Err {
@@ -477,7 +490,7 @@ impl<const N: usize> World<N> {
     }
 
     fn step(&mut self, raw: [u8; 3]) {
-        let a = pick_a(raw[0]);
+        let a = pick_a_masked(raw[0], self.mask);
         let (b1, b2) = (raw[1], raw[2]);
         match a {
             A::Send | A::SendTimeout0 | A::SendOptTimeout0 | A::TrySend | A::TrySendOpt | A::TrySendRt | A::TrySendOptRt => {
@@ -1216,6 +1229,7 @@ fn run_world<const N: usize>(case: &SCase, caps: &[Option<usize>]) -> (World<N>,
         viol: Vec::new(),
         live_handles: 2,
         in_queue_at_end: false,
+        mask: u32::from_le_bytes([case.cfg[3], case.cfg[4], case.cfg[5], case.cfg[6]]) & ((1 << 27) - 1),
     };
     let mut panicked = false;
     for op in case.ops.iter() {
@@ -1357,6 +1371,7 @@ pub fn run_case(prop: &str, case: &SCase, tier_caps: &[Option<usize>]) -> CaseOu
         "payload_bytes": if large { 24 } else if size_class == 1 { 8 } else { 4 },
         "history": trace,
         "flags": flags.iter().collect::<Vec<_>>(),
+        "swarm_mask": format!("{:07x}", u32::from_le_bytes([case.cfg[3], case.cfg[4], case.cfg[5], case.cfg[6]]) & ((1 << 27) - 1)),
     });
     co
 }
@@ -1365,8 +1380,12 @@ impl Engine for SeqEng {
     type Case = SCase;
     fn strategy(&self, _prop: &str, tier: &str) -> BoxedStrategy<SCase> {
         let maxlen = if tier == "thorough" { 80 } else { 60 };
-        (any::<[u8; 3]>(), prop::collection::vec(any::<[u8; 3]>(), 0..=maxlen))
-            .prop_map(|(cfg, ops)| SCase { cfg, ops })
+        // half of the histories use the whole alphabet, half a generated subset of it (swarm)
+        (any::<[u8; 3]>(), any::<bool>(), any::<[u8; 4]>(), prop::collection::vec(any::<[u8; 3]>(), 0..=maxlen))
+            .prop_map(|(c, swarm, m, ops)| {
+                let m = if swarm { m } else { [0; 4] };
+                SCase { cfg: [c[0], c[1], c[2], m[0], m[1], m[2], m[3]], ops }
+            })
             .boxed()
     }
     fn run(&self, prop: &str, case: &SCase) -> CaseOut {
@@ -1552,7 +1571,7 @@ fn exhaust(prop: &str, depth: u32, reduced: bool, threads: u64) -> ExOut {
                     ops.extend_from_slice(&tail);
                     for cfg in 0..24u8 {
                         let case = SCase {
-                            cfg: [(cfg & 3) * 64, (cfg >> 2) & 1, cfg >> 3],
+                            cfg: [(cfg & 3) * 64, (cfg >> 2) & 1, cfg >> 3, 0, 0, 0, 0],
                             ops: ops.clone(),
                         };
                         let o = run_case(prop, &case, caps);
